@@ -405,15 +405,16 @@ func c17ReflProgram(r *explore.Run, p *wgen.F5Program) {
 	c17ReflMSL(p, m, fail, count)
 }
 
-// c17ReflSelect: the programs swept over every GLSL version. Quick: unshared bindings, first IO variant, at
-// least one entry point using all three resources; thorough: every F5 program.
+// c17ReflSelect: the programs swept over every GLSL version: unshared bindings and at least one entry point
+// using all three resources (quick: first IO variant only; thorough: both variants, over the thorough
+// tier's larger set of use-subset rows).
 func c17ReflSelect(progs []*wgen.F5Program, thorough bool) []*wgen.F5Program {
-	if thorough {
-		return progs
-	}
 	var out []*wgen.F5Program
 	for _, p := range progs {
-		if strings.Contains(p.Sig, "share=false") && strings.Contains(p.Sig, "io=[0") && (strings.Contains(p.Sig, "uses=[7 ") || strings.Contains(p.Sig, "uses=[7]") || strings.Contains(p.Sig, " 7]")) {
+		if !strings.Contains(p.Sig, "share=false") || !thorough && !strings.Contains(p.Sig, "io=[0") {
+			continue
+		}
+		if strings.Contains(p.Sig, "uses=[7 ") || strings.Contains(p.Sig, "uses=[7]") || strings.Contains(p.Sig, " 7]") {
 			out = append(out, p)
 		}
 	}
